@@ -46,7 +46,7 @@ EXPECTED_PROBES = ["neutral-name-sniffed", "stdin-read", "first-chunk-inside-mag
 CODECS = ["none", "gz", "bz2", "lz4", "zst"]
 EXT = {"none": "", "gz": ".gz", "bz2": ".bz2", "lz4": ".lz4", "zst": ".zst"}
 MAGIC = {"gz": b"\x1f\x8b", "bz2": b"BZh", "lz4": b"\x04\x22\x4d\x18", "zst": b"\x28\xb5\x2f\xfd"}
-NAMINGS = ["ext-path", "neutral-path", "bytesio", "bufreader", "rawobj", "stdin-dash", "stdin-none", "scheme-stdin", "bufreader-small", "stdin-nopeek"]
+NAMINGS = ["ext-path", "neutral-path", "bytesio", "bufreader", "rawobj", "stdin-dash", "stdin-none", "scheme-stdin", "bufreader-small", "stdin-nopeek", "bytesio-offset", "bufreader-offset", "ext-path-after-selector"]
 NEED_FIRST = {"gz": 2, "bz2": 3, "lz4": 4, "zst": 4}
 
 STREAM_TYPES = ["string", "varint", "uint32", "boolean", "float", "bytes", "datetime", "string[]", "path", "net.ipaddress"]
@@ -239,6 +239,30 @@ def do_read(w, plan, naming, delivery, data, container, codec, tag):
             path = "/simfs/r/%s%s" % (stem, EXT[codec])
             w.fs.put(path, data)
             rd = RecordReader(pre + path)
+        elif naming == "ext-path-after-selector":
+            # the same URL was read before with a selector (one that matches nothing); this read has none
+            path = "/simfs/r/%s%s" % (stem, EXT[codec])
+            w.fs.put(path, data)
+            first = RecordReader(pre + path, selector="r.no_such_field_zz == 'x'")
+            n_first = sum(1 for _ in first)
+            first.close()
+            if n_first:
+                raise AssertionError("selector that matches nothing yielded %d records" % n_first)
+            rd = RecordReader(pre + path)
+        elif naming in ("bytesio-offset", "bufreader-offset"):
+            # the caller has already consumed an envelope in front of the record data: the object is handed over
+            # at a non-zero position
+            pre_len = 7 + (len(data) % 23)
+            blob = bytes((i * 31 + 7) % 256 for i in range(pre_len)) + data
+            if naming == "bytesio-offset":
+                fp = io.BytesIO(blob)
+                fp.read(pre_len)
+            else:
+                raw = w.new_raw("rb", blob, None, label=tag, seekable=True)
+                fp = io.BufferedReader(raw, 4096)
+                w.keep.append(fp)
+                fp.read(pre_len)
+            rd = RecordReader(fileobj=fp)
         elif naming == "neutral-path":
             path = "/simfs/r/neutral.bin"
             w.fs.put(path, data)
